@@ -496,6 +496,325 @@ decreasing_by
     simp only [List.length_drop, List.length_cons]
     omega
 
+/-! ### transport segmentation: readFromUntil / atLeastReader / bytes.Buffer.ReadFrom -/
+
+inductive IoErr where
+  | eof            -- io.EOF
+  | unexpectedEOF  -- io.ErrUnexpectedEOF
+  deriving DecidableEq, Repr
+
+/-- `c.rawInput.ReadFrom(&atLeastReader{r, need})` for `need > 0`. The transport is the list of byte
+    chunks its successive `Read` calls return (a chunk may be empty: `(0, nil)`); after the last chunk it
+    returns `(0, io.EOF)` (or returns the last chunk together with `io.EOF` — `atLeastReader` maps both to
+    the same results). `atLeastReader` stops the loop as soon as `need` bytes have arrived, and turns an
+    early EOF into `io.ErrUnexpectedEOF`. Result: rawInput, remaining transport, error. -/
+def readAtLeast (raw : Bytes) (need : Nat) : List Bytes → Bytes × List Bytes × Option IoErr
+  | [] => (raw, [], some .unexpectedEOF)
+  | b :: rest =>
+    if need ≤ b.length then (raw ++ b, rest, none)
+    else readAtLeast (raw ++ b) (need - b.length) rest
+
+/-- `readFromUntil(c.conn, n)` -/
+def readFromUntil (raw : Bytes) (n : Nat) (chunks : List Bytes) : Bytes × List Bytes × Option IoErr :=
+  if raw.length ≥ n then (raw, chunks, none) else readAtLeast raw (n - raw.length) chunks
+
+/-! ### readRecordOrCCS in full: both values of expectChangeCipherSpec, alerts, sticky error, cipher change -/
+
+def alertCloseNotify : Nat := 0
+def alertUnexpectedMessage : Nat := 10
+def alertBadRecordMAC : Nat := 20
+def alertRecordOverflow : Nat := 22
+def alertDecodeError : Nat := 50
+def alertProtocolVersion : Nat := 70
+def alertInternalError : Nat := 80
+def alertLevelWarning : UInt8 := 1
+def alertLevelError : UInt8 := 2
+
+/-- alert returned by the `if hc.version == VersionTLS13` block of decrypt when it fails -/
+def decrypt13Alert (typ : UInt8) (plaintext : Bytes) : Nat :=
+  if typ != recordTypeApplicationData then alertUnexpectedMessage
+  else if plaintext.length > maxPlaintext + 1 then alertRecordOverflow
+  else alertUnexpectedMessage
+
+/-- which `Alert` a failing `decrypt` returns (same case split as `decrypt`; every failure outside the
+    TLS 1.3 inner-plaintext block is bad_record_mac — length, padding and MAC failures alike). -/
+def decryptAlert {σ} (hc : HalfConn σ) (record : Bytes) : Nat :=
+  match record with
+  | typ :: v1 :: v2 :: _ :: _ :: payload =>
+    match hc.cipher with
+    | .null => alertBadRecordMAC
+    | .stream _ _ =>
+      match decrypt13 hc.version typ [] with
+      | .ok _ => alertBadRecordMAC
+      | _ => decrypt13Alert typ []
+    | .aead a =>
+      let eNL := explicitNonceLen hc
+      if payload.length < eNL then alertBadRecordMAC
+      else
+        let nonce0 := payload.take eNL
+        let nonce := if nonce0.length == 0 then hc.seq else nonce0
+        let payload := payload.drop eNL
+        let additionalData :=
+          if hc.version == VersionTLS13 then record.take recordHeaderLen
+          else hc.seq ++ [typ, v1, v2] ++ be16 ((payload.length : Int) - a.overhead)
+        match a.openFn nonce payload additionalData with
+        | none => alertBadRecordMAC
+        | some plaintext =>
+          match decrypt13 hc.version typ plaintext with
+          | .ok _ => alertBadRecordMAC
+          | _ => decrypt13Alert typ plaintext
+    | .cbc c mac =>
+      let eNL := explicitNonceLen hc
+      let minPayload := eNL + roundUp (mac.size + 1) c.blockSize
+      if payload.length % c.blockSize != 0 || payload.length < minPayload then alertBadRecordMAC
+      else
+        match decrypt13 hc.version typ [] with
+        | .ok _ => alertBadRecordMAC
+        | _ => decrypt13Alert typ []
+  | _ => alertBadRecordMAC
+
+/-- the error `readRecordOrCCS` returns and stores in `c.in.err` -/
+inductive ErrK where
+  | io (e : IoErr)               -- transport ended (io.EOF at a record boundary / close_notify, io.ErrUnexpectedEOF inside a record)
+  | localAlert (a : Nat)         -- `c.sendAlert(a)`: alert record written, error = "local error: a"
+  | remoteAlert (a : Nat)        -- "remote error: a" (fatal alert received, or any alert in TLS 1.3)
+  | header (alert : Option Nat)  -- RecordHeaderError, after sending `alert` (if any)
+  | tooManyIgnored               -- "too many ignored records", after sending unexpected_message
+  | pendingInput                 -- "attempted to read record with pending application data"
+  deriving DecidableEq, Repr
+
+/-- the alert description written to the peer for an error -/
+def ErrK.alertSent : ErrK → Option Nat
+  | .localAlert a => some a
+  | .header a => a
+  | .tooManyIgnored => some alertUnexpectedMessage
+  | _ => none
+
+/-- `halfConn.changeCipherSpec` (`next` = nextCipher/nextMac with the new cipher's initial state; a nil
+    nextCipher is `none` or the null cipher): install it, zero the sequence number. `none` = AlertInternalError. -/
+def changeCipherSpec {σ} (hc : HalfConn σ) (next : Option (Cipher σ × σ)) : Option (HalfConn σ) :=
+  match next with
+  | none => none
+  | some (.null, _) => none
+  | some (ci, st) =>
+    if hc.version == VersionTLS13 then none
+    else some { hc with cipher := ci, st := st, seq := hc.seq.map (fun _ => 0) }
+
+/-- reading side of a Conn without the transport: `c.hc` = `c.in`, `next` = `c.in.nextCipher`,
+    `inErr` = `c.in.err`, `input` = unread part of `c.input`. -/
+structure RCore (σ : Type) where
+  c : Conn σ
+  next : Option (Cipher σ × σ)
+  inErr : Option ErrK
+  input : Bytes
+
+/-- … with `raw` = `c.rawInput` and `chunks` = what the transport will return. -/
+structure RState (σ : Type) where
+  core : RCore σ
+  raw : Bytes
+  chunks : List Bytes
+
+inductive ROut where
+  | data (d : Bytes)   -- c.input set
+  | hand               -- c.hand grew
+  | ccs                -- c.in.changeCipherSpec called
+  | err (e : ErrK)
+  deriving DecidableEq, Repr
+
+/-- the checks on the five header bytes -/
+def headerCheck {σ} (c : Conn σ) (typ v1 v2 l1 l2 : UInt8) : Option ErrK :=
+  if !c.handshakeComplete && typ == 0x80 then some (.header (some alertProtocolVersion))
+  else
+    let vers := v1.toNat * 256 + v2.toNat
+    let n := l1.toNat * 256 + l2.toNat
+    if c.haveVers && c.vers != VersionTLS13 && vers != c.vers then some (.header (some alertProtocolVersion))
+    else if !c.haveVers && ((typ != recordTypeAlert && typ != recordTypeHandshake) || vers ≥ 0x1000) then
+      some (.header none)
+    else if (c.vers == VersionTLS13 && n > maxCiphertextTLS13) || n > maxCiphertext then
+      some (.header (some alertRecordOverflow))
+    else none
+
+inductive Fetched where
+  | fail (raw : Bytes) (chunks : List Bytes) (e : ErrK)
+  | record (record rest : Bytes) (chunks : List Bytes)
+
+/-- first half of readRecordOrCCS: read the header, check it, read the body, cut the record off rawInput. -/
+def fetch {σ} (c : Conn σ) (raw : Bytes) (chunks : List Bytes) : Fetched :=
+  match readFromUntil raw recordHeaderLen chunks with
+  | (raw, chunks, some e) =>
+    .fail raw chunks (.io (if e == .unexpectedEOF && raw.length == 0 then .eof else e))
+  | (raw, chunks, none) =>
+    match raw with
+    | typ :: v1 :: v2 :: l1 :: l2 :: _ =>
+      match headerCheck c typ v1 v2 l1 l2 with
+      | some e => .fail raw chunks e
+      | none =>
+        let n := l1.toNat * 256 + l2.toNat
+        match readFromUntil raw (recordHeaderLen + n) chunks with
+        | (raw, chunks, some e) => .fail raw chunks (.io e)
+        | (raw, chunks, none) => .record (raw.take (recordHeaderLen + n)) (raw.drop (recordHeaderLen + n)) chunks
+    | _ => .fail raw chunks (.io .unexpectedEOF)   -- unreachable: readFromUntil returned at least 5 bytes
+
+inductive Step (σ : Type) where
+  | done (k : RCore σ) (o : ROut)
+  | retry (k : RCore σ)
+  | panic
+
+def failStep {σ} (k : RCore σ) (e : ErrK) : Step σ := .done { k with inErr := some e } (.err e)
+
+/-- `retryReadRecord` up to the recursive call -/
+def retryStep {σ} (k : RCore σ) : Step σ :=
+  let rc := k.c.retryCount + 1
+  let k1 := { k with c := { k.c with retryCount := rc } }
+  if rc > maxUselessRecords then failStep k1 .tooManyIgnored else .retry k1
+
+/-- second half of readRecordOrCCS: decrypt and the content-type switch, on the record cut off by `fetch`. -/
+def process {σ} (s : RCore σ) (expectCCS : Bool) (record : Bytes) : Step σ :=
+  let c := s.c
+  match decrypt c.hc record with
+  | .panic => .panic
+  | .err => failStep s (.localAlert (decryptAlert c.hc record))
+  | .ok (data, typ, hc') =>
+    let s := { s with c := { c with hc := hc' } }
+    if data.length > maxPlaintext then failStep s (.localAlert alertRecordOverflow)
+    else
+      let isNull := match c.hc.cipher with | .null => true | _ => false
+      if isNull && typ == recordTypeApplicationData then failStep s (.localAlert alertUnexpectedMessage)
+      else
+        let rc := if typ != recordTypeAlert && typ != recordTypeChangeCipherSpec && data.length > 0 then 0
+                  else c.retryCount
+        let s := { s with c := { s.c with retryCount := rc } }
+        if c.vers == VersionTLS13 && typ != recordTypeHandshake && c.hand.length > 0 then
+          failStep s (.localAlert alertUnexpectedMessage)
+        else if typ == recordTypeAlert then
+          match data with
+          | [level, desc] =>
+            if desc.toNat == alertCloseNotify then failStep s (.io .eof)
+            else if c.vers == VersionTLS13 then failStep s (.remoteAlert desc.toNat)
+            else if level == alertLevelWarning then retryStep s
+            else if level == alertLevelError then failStep s (.remoteAlert desc.toNat)
+            else failStep s (.localAlert alertUnexpectedMessage)
+          | _ => failStep s (.localAlert alertUnexpectedMessage)
+        else if typ == recordTypeChangeCipherSpec then
+          if data != [1] then failStep s (.localAlert alertDecodeError)
+          else if c.hand.length > 0 then failStep s (.localAlert alertUnexpectedMessage)
+          else if c.vers == VersionTLS13 then retryStep s
+          else if !expectCCS then failStep s (.localAlert alertUnexpectedMessage)
+          else
+            match changeCipherSpec s.c.hc s.next with
+            | none => failStep s (.localAlert alertInternalError)
+            | some hc2 => .done { s with c := { s.c with hc := hc2 }, next := none } .ccs
+        else if typ == recordTypeApplicationData then
+          if !c.handshakeComplete || expectCCS then failStep s (.localAlert alertUnexpectedMessage)
+          else if data.length == 0 then retryStep s
+          else .done { s with input := data } (.data data)
+        else if typ == recordTypeHandshake then
+          if data.length == 0 || expectCCS then failStep s (.localAlert alertUnexpectedMessage)
+          else .done { s with c := { s.c with hand := c.hand ++ data } } .hand
+        else failStep s (.localAlert alertUnexpectedMessage)
+
+inductive RStep (σ : Type) where
+  | done (s : RState σ) (o : ROut)
+  | retry (s : RState σ)
+  | panic
+
+/-- one pass through the body of readRecordOrCCS (up to a `retryReadRecord` recursion) -/
+def readStep {σ} (s : RState σ) (expectCCS : Bool) : RStep σ :=
+  match s.core.inErr with
+  | some e => .done s (.err e)
+  | none =>
+    if s.core.input.length != 0 then
+      .done { s with core := { s.core with inErr := some .pendingInput } } (.err .pendingInput)
+    else
+      match fetch s.core.c s.raw s.chunks with
+      | .fail raw chunks e => .done ⟨{ s.core with inErr := some e }, raw, chunks⟩ (.err e)
+      | .record record rest chunks =>
+        match process s.core expectCCS record with
+        | .done k o => .done ⟨k, rest, chunks⟩ o
+        | .retry k => .retry ⟨k, rest, chunks⟩
+        | .panic => .panic
+
+/-- the recursion through `retryReadRecord`: bounded by `maxUselessRecords` in the Go code (each retry
+    increments `retryCount` and fails above the bound), hence the fuel; `none` = a decrypt panic (or
+    fuel exhausted, which cannot happen from `readRecordOrCCS`: `ZV.C25.readLoop_fuel`). -/
+def readLoop {σ} (expectCCS : Bool) : Nat → RState σ → Option (RState σ × ROut)
+  | 0, _ => none
+  | fuel + 1, s =>
+    match readStep s expectCCS with
+    | .done s' o => some (s', o)
+    | .retry s' => readLoop expectCCS fuel s'
+    | .panic => none
+
+/-- `readRecordOrCCS(expectChangeCipherSpec)` -/
+def readRecordOrCCS {σ} (s : RState σ) (expectCCS : Bool) : Option (RState σ × ROut) :=
+  readLoop expectCCS (maxUselessRecords + 1) s
+
+def RState.drained {σ} (s : RState σ) : RState σ := { s with core := { s.core with input := [] } }
+
+/-- the loop of `Conn.Read` seen from the record layer: up to `n` calls of `readRecord()`, the caller
+    consuming `c.input` completely in between; delivered application data in order, and the error that
+    ended it (if any). Handshake records (post-handshake messages) are taken out of `c.hand` and the loop
+    goes on, as `Read` does after `handlePostHandshakeMessage` (outside this model) consumed them. -/
+def readAll {σ} : Nat → RState σ → List Bytes × Option ErrK
+  | 0, _ => ([], none)
+  | n + 1, s =>
+    match readRecordOrCCS s false with
+    | none => ([], none)
+    | some (s', .data d) =>
+      match readAll n s'.drained with
+      | (ds, e) => (d :: ds, e)
+    | some (s', .hand) => readAll n { s' with core := { s'.core with c := { s'.core.c with hand := [] } } }
+    | some (s', .ccs) => readAll n s'
+    | some (_, .err e) => ([], some e)
+
+/-! ### write side: ChangeCipherSpec epilogue with a pending cipher, Conn.Write's 1/n-1 split -/
+
+inductive WriteEnd (σ : Type) where
+  | plain (w : WriteOut σ)
+  /-- a ChangeCipherSpec record was written and `c.out.changeCipherSpec()` installed the pending cipher
+      (in `w.conn.hc`, sequence number zero) -/
+  | switched (w : WriteOut σ)
+  /-- `changeCipherSpec` failed: `sendAlertLocked(AlertInternalError)` wrote `alert` (ok) or failed too -/
+  | ccsFailed (w : WriteOut σ) (alert : Res (WriteOut σ))
+
+/-- `writeRecordLocked(typ, data)` with the ChangeCipherSpec epilogue for any `nextCipher`. -/
+def writeRecordLockedN {σ} (c : Conn σ) (next : Option (Cipher σ × σ)) (typ : UInt8) (data rand : Bytes) :
+    Res (WriteEnd σ) :=
+  match writeLoop c typ data rand 0 [] [] with
+  | .ok w =>
+    if typ == recordTypeChangeCipherSpec && c.vers != VersionTLS13 then
+      match changeCipherSpec w.conn.hc next with
+      | some hc2 => .ok (.switched { w with conn := { w.conn with hc := hc2 } })
+      | none =>
+        .ok (.ccsFailed w (writeLoop w.conn recordTypeAlert [alertLevelError, UInt8.ofNat alertInternalError] w.rand 0 [] []))
+    else .ok (.plain w)
+  | .err => .err
+  | .panic => .panic
+
+def isCbc {σ} : Cipher σ → Bool
+  | .cbc _ _ => true
+  | _ => false
+
+/-- the record-writing part of `Conn.Write(b)` (after the handshake / error / shutdown checks): TLS 1.0
+    with a block cipher splits off the first byte into its own record unless
+    `Config.DisableTLS10BEASTMitigation`. Result: (n, first call, second call). -/
+def connWrite {σ} (c : Conn σ) (disableBEAST : Bool) (b rand : Bytes) :
+    Res (Nat × Option (WriteOut σ) × WriteOut σ) :=
+  if b.length > 1 && c.vers == VersionTLS10 && !disableBEAST && isCbc c.hc.cipher then
+    match writeRecordLocked c recordTypeApplicationData (b.take 1) rand with
+    | .ok w1 =>
+      match writeRecordLocked w1.conn recordTypeApplicationData (b.drop 1) w1.rand with
+      | .ok w2 => .ok (w2.n + 1, some w1, w2)
+      | .err => .err
+      | .panic => .panic
+    | .err => .err
+    | .panic => .panic
+  else
+    match writeRecordLocked c recordTypeApplicationData b rand with
+    | .ok w => .ok (w.n, none, w)
+    | .err => .err
+    | .panic => .panic
+
 /-! ### toy primitives (identical definitions in go/props/c25/record.go) -/
 namespace Toy
 
